@@ -12,7 +12,8 @@ HARNESS_INFO = {}
 
 RECL = ["recl_a", "recl_b", "recl_c"]
 QUEUES = ["queues_ms", "queues_ram", "queues_nik"]
-ALL = RECL + QUEUES
+HM = ["hmlist", "hmmap"]
+ALL = RECL + QUEUES + ["bqueues", "kfifo", "own"] + HM
 
 PROPS = {
     "C01": {"mode": "C01", "harnesses": RECL, "quick_s": 25, "thorough_s": 900,
@@ -23,6 +24,16 @@ PROPS = {
             "title": "race-free and robust to weak executions"},
     "C04": {"mode": "C04", "harnesses": QUEUES, "quick_s": 20, "thorough_s": 600,
             "title": "michael_scott / ramalhete / nikolaev queues are linearizable FIFO queues"},
+    "C05": {"mode": "C05", "harnesses": ["bqueues"], "quick_s": 20, "thorough_s": 600,
+            "title": "vyukov_bounded / nikolaev_bounded queues are linearizable bounded FIFOs"},
+    "C06": {"mode": "C06", "harnesses": ["kfifo"], "quick_s": 20, "thorough_s": 600,
+            "title": "Kirsch k-FIFO queues conserve elements with at most k-1 overtaking"},
+    "C07": {"mode": "C07", "harnesses": ["own"], "quick_s": 20, "thorough_s": 600,
+            "title": "queues own their elements: moved out or destroyed exactly once"},
+    "C08": {"mode": "C08", "harnesses": HM, "quick_s": 25, "thorough_s": 900,
+            "title": "Harris-Michael list set and hash map are linearizable sets/maps"},
+    "C09": {"mode": "C09", "harnesses": HM, "quick_s": 25, "thorough_s": 900,
+            "title": "Harris-Michael iterators stay valid and weakly consistent under updates"},
     "C15": {"mode": "C15", "harnesses": RECL, "quick_s": 25, "thorough_s": 600,
             "title": "marked_ptr / concurrent_ptr / guard_ptr smart pointer algebra"},
     "C16": {"mode": "C16", "harnesses": ALL, "quick_s": 30, "thorough_s": 900,
